@@ -208,14 +208,16 @@ theorem disc_eq_spec (r : Rel) (x c t : Rat) (ht : 0 ≤ t) :
     (`==` / `!=` between two equal infinities is outside `discX`'s domain: notes/C08.md N-C08-1) -/
 theorem disc_eq_specX (r : Rel) (x c : Fl) (t : Rat) (ht : 0 ≤ t) (v : Fl) (h : discX r x c t = some v) :
     comparative_discretise x c (.str r.str) (some (fin t)) = .ok v := by
-  rw [cd_some _ _ _ t ht]
-  have hk : ∀ q : Rat, mul (fin t) (fin q) = fin (t * q) := fun q => rfl
-  cases x <;> cases c <;> cases r <;>
-    simp [discX, disc, Rel.op, PyOp.apply, beq, ofBool, Fl.ge, Fl.gt, Fl.le, Fl.lt] at h <;>
-    (try subst h) <;>
-    first
-    | (rw [← cd_some _ _ _ t ht, mode_table _ _ _ _ ht])
-    | (unfold comparative_discretise_kernel
+  cases x <;> cases c
+  case fin.fin a b =>
+    have hv : ofBool (holds r a b t) = v := by simpa [discX, disc] using h
+    rw [← hv]; exact mode_table r a b t ht
+  all_goals
+    rw [cd_some _ _ _ t ht]
+    cases r <;>
+      simp [discX, disc, Rel.op, PyOp.apply, Fl.beq, Fl.bne, ofBool, Fl.ge, Fl.gt, Fl.le, Fl.lt] at h <;>
+      (try subst h) <;>
+      (unfold comparative_discretise_kernel
        simp [Rel.str, keys_ge, keys_gt, keys_le, keys_lt, keys_eq, keys_ne, ekeys_eq, ekeys_ne,
          look_ge, look_gt, look_le, look_lt, look_eq, look_ne, PyOp.apply, whereB, notNan, isNan, ofBool,
          Fl.neg, Fl.add, Fl.sub, Fl.abs, Fl.mul, Fl.ge, Fl.gt, Fl.le, Fl.lt, pure, Except.pure])
